@@ -1862,7 +1862,9 @@ def md_setdefault(it, d, args, kw, node):
             return v
         d.d[key] = default
         return default
-    if d.is_concrete() and not is_sym(key) and not contains_sym(key) and not it.ctx.generic:
+    if d.is_concrete() and not is_sym(key) and not contains_sym(key) and (
+            not it.ctx.generic or key in d.d or (isinstance(default, (MSet, MList, MDict)) and not contains_sym(default))):
+        # concrete key: the cell exists from here on (if created under a predicate its content carries the guard)
         return d.d.setdefault(key, default)
     h = getattr(d, 'vc_setdefault', None)
     if h is not None:
